@@ -398,6 +398,50 @@ def run(prog, rep, tier):
         rep.violation(R26, bzb.path + "|nul-test", "blockzero_analysis_bytes: the file is dismissed (FileErrNullBytes) when %s(%s %s) is %s (line %d), i.e. not only when every examined byte is NUL; "
                       "a text log that merely contains a NUL byte near its start loses all its messages" % (q, "b ==" if pred[0] == "Eq" else "b !=", pred[1], rej, t0["line"]))
 
+    # ------------------------------------------------------------ R2.12 no line part is built with its end tied to its own beginning
+    # LinePart::new(block, begin, end, ..): `end` comes from the search for the newline (a variable the
+    # scan advances).  If every definition that reaches `end` is the same block_index_at_file_offset(x)
+    # the part's *begin* is computed from, the part is one byte long whatever the line holds: the rest
+    # of the line is silently lost.  (The scan variables bi_middle / bi_middle_end differ by one suffix.)
+    R212 = rep.rule("R2.12", "the end index of every LinePart is not a fixed offset from that part's own begin index")
+    n212 = 0
+    for p_ in ("s4lib::readers::linereader::LineReader::find_line", "s4lib::readers::linereader::LineReader::find_line_in_block"):
+        lb_ = prog.body(p_)
+
+        def _idx_calls(op_, depth=0):
+            """set of (callee, frozenset(arg origins)) if the operand is always a block_index call, else None"""
+            res = set()
+            for o_ in lb_.origins(op_):
+                if o_[0] == "call" and o_[2].endswith("block_index_at_file_offset"):
+                    cc_ = [z for z in lb_.calls if z.bb == o_[1]][0]
+                    res.add(frozenset(str(x[:2]) for a_ in cc_.args[1:] for x in lb_.origins(a_)))
+                else:
+                    return None
+            return res or None
+        for c in lb_.live_calls():
+            if not c.d.endswith("LinePart::new") or len(c.args) < 3:
+                continue
+            n212 += 1
+            beg_ = _idx_calls(c.args[1])
+            tied = False
+            endvar = None
+            l_ = op_local(c.args[2])
+            ds_ = lb_.defs.get(l_, []) if l_ is not None else []
+            if len(ds_) == 1 and ds_[0][1] != "call" and ds_[0][2][0] == "bin" and ds_[0][2][1].replace("WithOverflow", "") in ("Add", "Sub") and ds_[0][2][3][0] == "k":
+                base = ds_[0][2][2]
+                import flow as _fl2
+                nt_ = _fl2.named_target(lb_, base, through=())
+                endvar = lb_.local_name(nt_) if nt_ is not None else None
+                end_ = _idx_calls(base)
+                if beg_ is not None and end_ is not None and end_ <= beg_:
+                    tied = True
+            rep.examined(R212, "%s|LinePart::new#%d@%s" % (p_, n212, endvar or "?"), sample={"fn": p_.split("::")[-1], "line": c.line, "end_variable": endvar, "end_tied_to_begin": tied})
+            if tied:
+                rep.violation(R212, "%s|LinePart::new|end-tied-to-begin|%s" % (p_, endvar), "%s (line %d): the part's end index is `%s + const` and %s is always the block index the part begins at; the part is one byte long, "
+                              "the rest of the line is lost and the next message is merged into this one" % (p_.split("::")[-1], c.line, endvar, endvar))
+    if n212 < 10:
+        raise CheckerError("R2.12: only %d LinePart::new sites" % n212)
+
     return rep.finish(
         "Static necessary-condition check of the hand-over stages only: the streaming loop threads the returned offset into the next find and "
         "sends each found message once; the sysline printers traverse lines and parts with plain forward slice iterators; the final newline is "
